@@ -29,3 +29,81 @@ package crdt
 
 //@ extern pubsub.Message.GetFrom()
 //@   ensures res == uf("msgFrom", "peer.ID", self)
+
+// ---- C02: batching ----
+// ghost timer: 0 = idle (stopped or drained), 1 = armed, 2 = fired and not yet received
+// (time.Timer under the pre-Go-1.23 semantics selected by go.mod)
+//@ ghost var timerState int
+//@ ghost var commitN int
+//@ ghost var commitOK int
+
+//@ extern time.NewTimer(d)
+//@   ensures timerState == 1 || timerState == 2
+//@   modifies timerState
+// Stop: true iff it stopped an armed timer; an armed timer may have fired just before the call
+//@ extern time.Timer.Stop()
+//@   ensures old(timerState) == 0 ==> !res && timerState == 0
+//@   ensures old(timerState) == 2 ==> !res && timerState == 2
+//@   ensures old(timerState) == 1 ==> (res && timerState == 0) || (!res && timerState == 2)
+//@   modifies timerState
+//@ extern time.Timer.Reset(d)
+//@   ensures timerState == 1
+//@   modifies timerState
+// receiving from the timer channel: possible only if the timer is armed or has fired; leaves it idle
+//@ extern time.Timer.recv()
+//@   requires timerState == 1 || timerState == 2
+//@   ensures timerState == 0
+//@   modifies timerState
+
+//@ interface state.BatchingState.Commit(ctx)
+//@   counts commitN when true
+//@   counts commitOK when err == nil
+//@   modifies nothing
+
+// "a batch is committed when it reaches its size limit or its age limit": the worker keeps a timer
+// pending whenever the batch is non-empty, starts it with the first item of a batch only, commits at
+// the size limit, and never blocks forever on the timer channel
+//@ func (css *Consensus) batchWorker
+//@   property C02
+//@   requires css.config.Batching.MaxBatchSize > 0
+//@   at_call time.Timer.Reset assert [age-counts-from-the-first-item] batchCurSize == 0 || timerState == 0
+//@   loop 1 (for)
+//@     invariant [bounded] 0 <= batchCurSize
+//@     invariant [non-empty-batch-has-a-pending-timer] batchCurSize > 0 ==> timerState == 1 || timerState == 2
+//@     invariant maxSize == css.config.Batching.MaxBatchSize
+//@   modifies timerState, commitN, commitOK, pinset
+
+// "an operation refused because the queue is full is reported as an error and has no effect";
+// without batching the operation is applied before returning
+//@ func (css *Consensus) LogPin
+//@   property C02
+//@   ensures [batched-or-refused-leaves-state] css.config.Batching.MaxBatchSize > 0 && css.config.Batching.MaxBatchAge > 0 ==> pinset == old(pinset)
+//@   ensures [unbatched-applied] !(css.config.Batching.MaxBatchSize > 0 && css.config.Batching.MaxBatchAge > 0) && err == nil ==> haskey(pinset, pin.Cid) && pinset[pin.Cid] == *pin
+//@   ensures [unbatched-touches-nothing-else] forall c cid.Cid :: c != pin.Cid ==> (haskey(pinset, c) <==> haskey(old(pinset), c)) && pinset[c] == old(pinset)[c]
+//@   modifies pinset
+
+//@ func (css *Consensus) LogUnpin
+//@   property C02
+//@   ensures [batched-or-refused-leaves-state] css.config.Batching.MaxBatchSize > 0 && css.config.Batching.MaxBatchAge > 0 ==> pinset == old(pinset)
+//@   ensures [unbatched-applied] !(css.config.Batching.MaxBatchSize > 0 && css.config.Batching.MaxBatchAge > 0) && err == nil ==> !haskey(pinset, pin.Cid)
+//@   ensures [unbatched-touches-nothing-else] forall c cid.Cid :: c != pin.Cid ==> (haskey(pinset, c) <==> haskey(old(pinset), c)) && pinset[c] == old(pinset)[c]
+//@   modifies pinset
+
+// "Every change that lands in a peer's pinset, local or remote, is handed to that peer's pin tracker"
+//@ ghost var rpcN int
+//@ ghost var rpcLastSvc string
+//@ ghost var rpcLastMethod string
+//@ extern rpc.Client.CallContext(ctx, dest, svcName, svcMethod, args, reply)
+//@   ensures rpcN == old(rpcN) + 1 && rpcLastSvc == svcName && rpcLastMethod == svcMethod
+//@   modifies rpcN, rpcLastSvc, rpcLastMethod, *reply
+
+//@ closure Consensus.setup#2
+//@   property C02
+//@   ensures [decoded-pin-tracked] rpcN == old(rpcN) || (rpcN == old(rpcN) + 1 && rpcLastSvc == "PinTracker" && rpcLastMethod == "Track")
+//@   ensures [only-undecodable-skipped] rpcN == old(rpcN) ==> err != nil
+//@   modifies rpcN, rpcLastSvc, rpcLastMethod, heap(api.Pin)
+
+//@ closure Consensus.setup#3
+//@   property C02
+//@   ensures rpcN == old(rpcN) || (rpcN == old(rpcN) + 1 && rpcLastSvc == "PinTracker" && rpcLastMethod == "Untrack")
+//@   modifies rpcN, rpcLastSvc, rpcLastMethod, heap(api.Pin)
